@@ -157,6 +157,15 @@ CLAIMED = {
              'points within maxjointsize/2 of the corner, trimmed lines are sub-segments of the originals; one-segment path unchanged.',
         note='Cubic-cubic and line-cubic joints are outside (they chain ilength/cropped/radialrange: C07/C09/C13). Corner angles bounded away from 0/180 degrees. Reals.',
         design='3/C20'),
+    'C17': dict(
+        text='parse_transform on every transform kind / argument count / separator spelling and every list of <=2 transforms with symbolic '
+             'arguments (placeholder tokens; cos/sin/tan as unit-pair atoms): z3 shows the matrix equals the left-to-right product of the SVG '
+             '1.1 s7.6 matrices.  rect (plain, rx, ry, both; as attribute dict and as ElementTree element), circle, ellipse, line, polyline, '
+             'polygon with symbolic attributes: converter output parsed by the real parser equals the SVG s9 geometry.  Traversal: 9 '
+             'document templates (groups to depth 2, transform on nodes/leaves, path/line/polyline/polygon leaves, two siblings) through '
+             'Document.paths, paths_from_group, svg2paths and SaxDocument.flatten_all_paths vs a reference flattener.',
+        note='XML layers run concretely on the token strings. Transformed arcs (circle/ellipse/rounded rect under a non-identity transform) are outside: the Arc branch of transform() raises TypeError under numpy 2.5 here. rx/ry clamping of rounded rects is outside. Nesting deeper than 2 outside.',
+        design='3/C17'),
 }
 
 NOT_YET = 'check not built yet in this round (see DESIGN.md section 3 for the plan)'
